@@ -39,6 +39,11 @@ impl private::SignedInteger for i32 {
     fn from_i64(i: i64) -> Self {
         i as i32
     }
+
+    #[inline]
+    fn wrapping_add(self, rhs: Self) -> Self {
+        i32::wrapping_add(self, rhs)
+    }
 }
 
 impl SignedInteger for i64 {}
@@ -57,6 +62,11 @@ impl private::SignedInteger for i64 {
     #[inline]
     fn from_i64(i: i64) -> Self {
         i
+    }
+
+    #[inline]
+    fn wrapping_add(self, rhs: Self) -> Self {
+        i64::wrapping_add(self, rhs)
     }
 }
 
@@ -78,6 +88,8 @@ mod private {
 
         /// Unconditionally converts i64 to ourself
         fn from_i64(i: i64) -> Self;
+
+        fn wrapping_add(self, rhs: Self) -> Self;
     }
 }
 
@@ -2352,7 +2364,9 @@ impl<I: SignedInteger> Subframe<I> {
             for split in coefficients.len()..channel.len() {
                 let (predicted, residuals) = channel.split_at_mut(split);
 
-                residuals[0] += I::from_i64(
+                // a stream need not keep its samples within range,
+                // so the sum must not trap
+                residuals[0] = residuals[0].wrapping_add(I::from_i64(
                     predicted
                         .iter()
                         .rev()
@@ -2360,7 +2374,7 @@ impl<I: SignedInteger> Subframe<I> {
                         .map(|(x, y)| (*x).into() * y)
                         .sum::<i64>()
                         >> qlp_shift,
-                );
+                ));
             }
         }
 
